@@ -139,6 +139,9 @@ class _Desugar(ast.NodeTransformer):
       * `for i in (c1, .., cn): BODY` over literal constants (no break / continue of that loop, i not rebound) -> BODY[i:=c1]; ..; BODY[i:=cn]
     """
 
+    def __init__(self, local_names: Optional[Set[str]] = None):
+        self.local_names = local_names      # None: unknown, only literal constants are substituted
+
     def visit_FunctionDef(self, n):
         return n
 
@@ -163,7 +166,41 @@ class _Desugar(ast.NodeTransformer):
             return pre, item
         return None
 
+    def visit_Call(self, c):
+        """`map(F, IT)` -> `(F(v) for v in IT)`, `filter(F, IT)` -> `(v for v in IT if F(v))` (one iterable; F a name, attribute or
+        one-parameter lambda, which is applied in place)"""
+        self.generic_visit(c)
+        if not (isinstance(c.func, ast.Name) and c.func.id in ("map", "filter") and len(c.args) == 2 and not c.keywords
+                and not any(isinstance(a, ast.Starred) for a in c.args)):
+            return c
+        if self.local_names is not None and c.func.id in self.local_names:
+            return c
+        fn_, it = c.args
+        var = f"item__c{next(_counter)}"
+        load = lambda: ast.Name(id=var, ctx=ast.Load())
+        if isinstance(fn_, ast.Lambda):
+            a = fn_.args
+            if len(a.args) != 1 or a.posonlyargs or a.kwonlyargs or a.vararg or a.kwarg or a.defaults:
+                return c
+            applied = _Subst(a.args[0].arg, load()).visit(copy.deepcopy(fn_.body))
+        elif isinstance(fn_, (ast.Name, ast.Attribute)):
+            applied = ast.Call(func=fn_, args=[load()], keywords=[])
+        elif isinstance(fn_, ast.Constant) and fn_.value is None and c.func.id == "filter":
+            applied = load()
+        else:
+            return c
+        comp = ast.comprehension(target=ast.Name(id=var, ctx=ast.Store()), iter=it, ifs=[], is_async=0)
+        if c.func.id == "map":
+            new = ast.GeneratorExp(elt=applied, generators=[comp])
+        else:
+            comp.ifs = [applied]
+            new = ast.GeneratorExp(elt=load(), generators=[comp])
+        ast.copy_location(new, c)
+        ast.fix_missing_locations(new)
+        return new
+
     def visit_Expr(self, st):
+        self.generic_visit(st)
         c = st.value
         if isinstance(c, ast.Call) and isinstance(c.func, ast.Attribute):
             recv = c.func.value
@@ -182,6 +219,7 @@ class _Desugar(ast.NodeTransformer):
         return st
 
     def visit_Assign(self, st):
+        self.generic_visit(st)
         if len(st.targets) == 1 and isinstance(st.targets[0], ast.Name):
             sd = self._setdefault(st.value)
             if sd is not None:
@@ -194,6 +232,7 @@ class _Desugar(ast.NodeTransformer):
         return st
 
     def visit_AnnAssign(self, st):
+        self.generic_visit(st)
         if isinstance(st.target, ast.Name) and st.value is not None:
             nx = self._next(st.target, st.value, st)
             if nx is not None:
@@ -224,8 +263,9 @@ class _Desugar(ast.NodeTransformer):
         it = n.iter
         if n.orelse or not isinstance(n.target, ast.Name) or not isinstance(it, (ast.Tuple, ast.List)) or not (1 <= len(it.elts) <= 4):
             return n
-        if not all(isinstance(e, ast.Constant) for e in it.elts):
-            return n
+        if not all(isinstance(e, ast.Constant) or (isinstance(e, ast.Name) and self.local_names is not None and e.id not in self.local_names)
+                   for e in it.elts):
+            return n        # literal constants or names the function never binds (module-level values)
         name = n.target.id
 
         def own_jumps(stmts) -> bool:
@@ -348,7 +388,11 @@ def normalise_body(body: List[ast.stmt], repo: Optional[Repo] = None, f: Optiona
     out = []
     t, u = _LoopsToAny(), _IfExpToIf()
     try:
-        ds = _Desugar()
+        scope = ast.Module(body=body, type_ignores=[])
+        bound = {x.id for x in ast.walk(scope) if isinstance(x, ast.Name) and not isinstance(x.ctx, ast.Load)}
+        bound |= {a.arg for x in ast.walk(scope) if isinstance(x, ast.arguments) for a in x.posonlyargs + x.args + x.kwonlyargs}
+        bound |= set(f.params) if f is not None else set()
+        ds = _Desugar(bound if f is not None and not any(isinstance(x, (ast.Global, ast.Nonlocal)) for x in ast.walk(scope)) else None)
         body = [y for st in copy.deepcopy(body) for y in (lambda r_: r_ if isinstance(r_, list) else [r_])(ds.visit(st))]
     except Exception:
         pass
